@@ -498,6 +498,18 @@ func gitDescribe() string {
 // doReplay re-executes a replay file in a fresh process.  Returns 1 when the
 // recorded oracle fired again, 0 when it did not, 2 on divergence/errors.
 func doReplay(bin, prop, path string, verbose bool) int {
+	// a scenario marked Loose contains sources of nondeterminism the
+	// simulator does not own (Go's random choice among ready select cases
+	// inside net/http): its replays are given three attempts
+	for attempt := 1; ; attempt++ {
+		rc, loose := doReplayOnce(bin, prop, path, verbose)
+		if rc == 1 || !loose || attempt == 3 {
+			return rc
+		}
+	}
+}
+
+func doReplayOnce(bin, prop, path string, verbose bool) (int, bool) {
 	abs, _ := filepath.Abs(path)
 	outDir := filepath.Join(verifDir, "build", "out")
 	os.MkdirAll(outDir, 0o755)
@@ -525,7 +537,7 @@ func doReplay(bin, prop, path string, verbose bool) int {
 	}
 	if res.Type != "replay" {
 		fmt.Printf("replay of %s failed: %v %s\n%s\n", path, err, res.Msg, tailFile(logFile, 2000))
-		return 2
+		return 2, res.Loose
 	}
 	if verbose {
 		for _, l := range res.Trace {
@@ -534,19 +546,19 @@ func doReplay(bin, prop, path string, verbose bool) int {
 	}
 	if res.Diverged != "" && !(res.Loose && res.Hit) {
 		fmt.Printf("replay of %s diverged: %s\n", path, res.Diverged)
-		return 2
+		return 2, res.Loose
 	}
 	if res.Hit {
 		if verbose {
 			fmt.Printf("replay reproduced oracle=%s key=%s\n", res.Oracle, res.Key)
 			fmt.Printf("VIOLATION property=%s replay=%s\n", prop, path)
 		}
-		return 1
+		return 1, res.Loose
 	}
 	if verbose {
 		fmt.Printf("replay did not reproduce oracle=%s key=%s (other violations: %v)\n", res.Oracle, res.Key, res.Viols)
 	}
-	return 0
+	return 0, res.Loose
 }
 
 func firstLines(s string, n int) string {
